@@ -17,6 +17,10 @@ NAN = float("nan")
 POOLS = {
     "line4": [[0.0], [1.0], [2.0], [4.0]],
     "dup4": [[0.0], [0.0], [1.0], [1.0]],
+    # two far-apart groups + a point in no-man's-land: kernel values underflow to exactly 0, so kernel classifiers give exactly
+    # one-hot probabilities near a group and the uniform fall-back in between
+    "far4": [[0.0], [0.5], [20.0], [40.0]],
+    "far5": [[0.0], [0.5], [20.0], [40.0], [40.5]],
     "grid4": [[0.0, 0.0], [1.0, 0.0], [0.0, 1.0], [2.0, 2.0]],
     "const4": [[0.0, 1.0], [1.0, 1.0], [2.0, 1.0], [4.0, 1.0]],
     "same4": [[1.0, 1.0]] * 4,
